@@ -13,8 +13,8 @@
 //	idx: comma separated ints, `-` for the empty/nil index. kinds: eof unexpected-eof overflow bad-header not-registered.
 //
 // `run` is a supervisor: the ops are executed by a child process (`runchild`) whose address space is limited,
-// because `make([]int, l)` with a hostile `l` can abort the process (fatal error: out of memory), which recover
-// cannot catch. The op on which the child died is reported as `panic` and the rest continues in a new child; an op
+// because an allocation sized by a hostile count can abort the process (fatal error: out of memory), which recover
+// cannot catch (DecodeIndex did exactly that before /repo a468db8; the guard stays so that a regression is an outcome). The op on which the child died is reported as `panic` and the rest continues in a new child; an op
 // exceeding its 2 s deadline is reported as `hang` and the child is replaced as well
 // (the ops since the last `reset` are replayed silently first).
 package main
@@ -763,9 +763,7 @@ func gen(a hx.Args) {
 			b = append(b, varint(genVal(r))...)
 		}
 		m := hx.Pick(r, allMax)
-		if (c > 1<<45 || c <= 1<<16) || i%16 == 0 { // process-killing counts are slow (a new child each): keep a sample
-			emitStateless("decidx %s %d", hexE(b), m)
-		}
+		emitStateless("decidx %s %d", hexE(b), m)
 	}
 	// 5. random bytes
 	for i := 0; i < a.N(2500, 200000); i++ {
